@@ -702,7 +702,7 @@ fn c07(tier: &str, known: &[crate::runner::Known]) -> PureResult {
     }
     let mut r = PureResult {
         exhaustive: true,
-        rule: "every point of the grid shape {chain, left comb, right comb, balanced tree, spine with leaves} x n x thread stack size x reclaiming context {plain call, thread-local destructor at thread exit}; each case is a child process that builds the structure iteratively, ages the links, drops the head on a thread with that stack and runs rounds; distinct = distinct grid points".into(),
+        rule: "every point of the grid shape {chain, left comb, right comb, balanced tree, spine with leaves, three-level fan-out whose edges are released by destructors instead of pop_edges (default and tight collection knobs: flush every 2nd decrement, 4 closures per bag)} x n x thread stack size x reclaiming context {plain call, thread-local destructor at thread exit}; each case is a child process that builds the structure iteratively, ages the links, drops the head on a thread with that stack and runs rounds; distinct = distinct grid points".into(),
         bounds: json!({"n": ns, "stack_kib": stacks, "contexts": ["call", "tls-destructor", "call with weak-pointer traffic colliding with the cascade (chain, n >= 10^4)"], "profile": "release, feature circ_verif compiled in but no hooks installed"}),
         assumptions: vec!["frame sizes are those of this build (release, hooks compiled in but inactive)".into()],
         ..Default::default()
